@@ -222,6 +222,14 @@ def role_rules(chk, F, A, tag):
           and [t["s"] for t in f.j.get("inputs", [])][1:] == ["&[u8]"] and f.j.get("output", {}).get("s") == "u16"
           and any(coef.path in [tp for tp in F.call_targets(f, t)] for _, t in f.calls())]
     if len(ck) != 1:
+        # is there a routine of that signature that computes its digits some other way?
+        sig = [f for f in F.fns.values() if f.j.get("impl") and f.j["impl"]["self_ty"].get("path", "").endswith("LmotsParameter")
+               and [t["s"] for t in f.j.get("inputs", [])][1:] == ["&[u8]"] and f.j.get("output", {}).get("s") == "u16"]
+        if len(sig) == 1 and not ck:
+            chk.ob("T3.checksum-digits-come-from-the-shared-digit-function", sig[0].key + tag, False,
+                   "%s does not take the digits it sums from %s (the routine signer and verifier use for the chain positions): a checksum over differently "
+                   "extracted digits does not protect the signed digits" % (sig[0].path, coef.path), where=sig[0].loc())
+            return
         raise AnchorLost("checksum routine (fn(&LmotsParameter, &[u8]) -> u16 calling the digit function) not unique: %s" % [f.path for f in ck])
     ck = ck[0]
     ex = expr.Expr(F, ck)
